@@ -25,7 +25,7 @@ RULE = ("(A) Hypothesis: environment states reached by a drawn reveal prefix (n=
         ">= 2 sizes); distinct = hash of the case.")
 LEVEL_TEXT = ("Generated states and game samples with an own re-computation of every candidate action's reward; all n=3 states "
               "enumerated. The choice rule is checked at each generated state, not proved for all states.")
-LEVEL_NOTE = ("Trusted: bounds of fresh objects (C01-C03, C08), gap functions (C05, C07). Reward ties are decided on values computed by "
+LEVEL_NOTE = ("Solver objects persist over a walk of states inside one reset window. Trusted: bounds of fresh objects (C01-C03, C08), gap functions (C05, C07). Reward ties are decided on values computed by "
               "the same gap function on a fresh object (bit-identical to what the solver observes when C08 holds).")
 TECHNIQUE = "property-based testing: Hypothesis-generated environment states / game samples vs brute-force re-computation of the solver's choice rule"
 ASSUMPTIONS = ["hidden games are of the class the computer assumes", "expected-greedy ties: any minimiser within 1e-9*scale (1e-6 with rng) is accepted"]
